@@ -47,8 +47,9 @@ static ares_status_t ares_nameoffset_create(ares_llist_t **list,
   ares_status_t      status;
   ares_nameoffset_t *off = NULL;
 
-  if (list == NULL || name == NULL || ares_strlen(name) == 0 ||
-      ares_strlen(name) > 255) {
+  /* NOTE: name is in presentation format, escaping can make it (much) longer
+   *       than the 255 octets a name may have on the wire */
+  if (list == NULL || name == NULL || ares_strlen(name) == 0) {
     return ARES_EFORMERR; /* LCOV_EXCL_LINE: DefensiveCoding */
   }
 
